@@ -31,6 +31,30 @@ theorem C04_crop_length {A G : Type} (clip : G → List G) (long : G → Bool) (
     ((Crop.crop clip long rows).map fun r => len r.geom).sum = (rows.map fun r => (((clip r.geom).filter long).map len).sum).sum :=
   C07.C07_length clip long len rows
 
+/-- **A snapping pass stays within the threshold of the traces as they were before the pass**: the second stage adds to a
+trace only ends (of other traces) that were strictly within the threshold of it, and otherwise keeps or drops its vertices;
+the first stage moves an end only onto a point strictly within the threshold (`C06_moves_within_threshold`). -/
+theorem C04_pass_stays_within_threshold (t : Rat) (eps : List Pt) (another : Polyline) :
+    ∀ v ∈ (SnapL.snapToAnother t eps another).1, v ∈ another ∨ (v ∈ eps ∧ SnapL.near t v another = true) :=
+  SnapL.snapToAnother_vertices t eps another
+
+/-- **The bound is per pass, not cumulative (known finding F25)**: for the stacked input `(0 0, 10 0)` with `(5 0.17, 5.1 0.09)`
+and threshold 0.1 the snapping loop of the model (both candidate orders) ends after two passes with the first trace bent through
+both ends of the second, and the point `(4, 0.136)` of the bent trace is farther than the threshold from BOTH input traces:
+"within the snapping tolerance of the input traces" fails for this input. The implementation does the same (corpus witness
+F25_dragged_target, stream S04). -/
+theorem C04_cumulative_drag_witness :
+    let A : Polyline := [⟨0, 0⟩, ⟨10, 0⟩]
+    let B : Polyline := [⟨5, 17 / 100⟩, ⟨51 / 10, 9 / 100⟩]
+    let t : Rat := 1 / 10
+    let bent : Polyline := [⟨0, 0⟩, ⟨5, 17 / 100⟩, ⟨51 / 10, 9 / 100⟩, ⟨10, 0⟩]
+    let p : Pt := ⟨4, 17 / 125⟩
+    (∀ ord : SnapL.Ord, (match SnapL.snapLoop ord t (20 * t) [] 10 [A, B] with | .ok (ls, n) => ls == [bent, B] && n == 2 | .error _ => false) = true) ∧
+    onSeg p ⟨0, 0⟩ ⟨5, 17 / 100⟩ = true ∧ SnapL.near t p A = false ∧ SnapL.near t p B = false := by
+  refine ⟨fun ord => ?_, ?_, ?_, ?_⟩
+  · cases ord <;> decide +kernel
+  all_goals decide +kernel
+
 example : Gen.branch_length_keep (3 / 200) (1 / 100) = true ∧ Gen.branch_length_keep (1 / 100) (1 / 100) = false := by decide +kernel
 
 end C04
